@@ -275,7 +275,17 @@ void RouterSession::checkNudging(const char *when) {
                     bool w1 = (aEnd || oneSide(a0, a1)) && (bEnd || oneSide(b0, b1));
                     if (!w && !w1) { probe("router.c10-overlap-in-narrow-channel-not-judged"); continue; }
                     std::string sig = w ? "collinear-overlap-left-in-wide-channel" : "collinear-overlap-left:interior-segment-on-its-channel-limit";
-                    if (rawKnown && !rawShared) sig += ":overlap-absent-from-raw-routes";      // created by the centring / unifying pre-processing, then not removed
+                    if (rawKnown && !rawShared) sig += ":overlap-absent-from-raw-routes";
+                    else {
+                        // classifier (KF-C10-c): the overlapping stretch ends at an end point of one connector that lies in the interior of
+                        // the other connector's segment (its end segment runs into the other connector's path)
+                        bool endOn = false;
+                        for (int ee = 0; ee < 2; ee++) {
+                            if (ptSegDist(ci.e[ee].pt, b0, b1) < 1e-9 && !samePt(ci.e[ee].pt, b0) && !samePt(ci.e[ee].pt, b1)) endOn = true;
+                            if (ptSegDist(cj.e[ee].pt, a0, a1) < 1e-9 && !samePt(cj.e[ee].pt, a0) && !samePt(cj.e[ee].pt, a1)) endOn = true;
+                        }
+                        if (endOn) sig += ":an-end-point-lies-inside-the-partner-segment";
+                    }      // created by the centring / unifying pre-processing, then not removed
                     std::string ra, rb; for (auto &qq : raw[i]) ra += fmt("(%g,%g)", qq.x, qq.y); for (auto &qq : raw[j]) rb += fmt("(%g,%g)", qq.x, qq.y);
                     std::string da, db; for (auto &qq : A) da += fmt("(%g,%g)", qq.x, qq.y); for (auto &qq : B) db += fmt("(%g,%g)", qq.x, qq.y);
                     violate("C10", "separated", sig, fmt("conns %d,%d overlap on %s=%g over %g (nudging distance %g, options attached=%d, shared in raw routes: %s) after %s; raw %s | %s; displayed %s | %s;%s", ids[i], ids[j], dim ? "y" : "x", c0, hi - lo, nd, (int)attached, rawKnown ? (rawShared ? "yes" : "no") : "unknown", when, ra.c_str(), rb.c_str(), da.c_str(), db.c_str(), describeScene().c_str()));
